@@ -7,6 +7,14 @@ becomes a `fault` point; every other test an oracle `choice`.  The translation i
 conservative; a construct that cannot be translated soundly is recorded in
 `unsupported` and makes the regenerated obligation `<prog>_translated` fail.
 
+Same-module callees that touch os.environ are inlined (`scope`), with their parameters
+bound to the literal arguments of the call (names of variables as string literals, tuples
+of literals, saved locals), their `return os.environ[...]`/`.get(...)` bound to the target
+of the call, structured return values ((name, saved value) pairs) propagated to the caller;
+`with <same-module context manager>` (class with __enter__/__exit__, or a
+@contextmanager generator) is inlined as enter ... tryFinally(body, exit).  A helper
+whose inlined body has no fault point is PURE-ENV: calling it is not a fault point.
+
 IR nodes are JSON lists: ["seq", a, b], ["fault", id], ["need", "VAR"], ...
 `meta[id]` records for every point id its kind and source lines, so that the
 fault-injection harness can map events of the real run to oracle decisions.
@@ -17,6 +25,7 @@ MUTATORS = ('pop', 'update', 'clear', 'setdefault', 'popitem', '__setitem__', '_
 READERS = ('copy', 'keys', 'values', 'items')
 STRMETH = {'upper': str.upper, 'lower': str.lower, 'strip': str.strip, 'title': str.title,
            'capitalize': str.capitalize}
+OPAQUE = ('opaque',)
 
 
 def seq(items):
@@ -54,15 +63,52 @@ def walk_ir(ir):
             yield from walk_ir(a)
 
 
+def has_fault(ir):
+    """does the IR contain anything but environment effects on saved values (PURE-ENV test)"""
+    return any(n[0] in ('fault', 'raise', 'choice', 'loop', 'tryExcept', 'kill', 'setExpr') for n in walk_ir(ir))
+
+
+def body_of(fn):
+    """statements of a function without the docstring"""
+    b = fn.body
+    if b and isinstance(b[0], ast.Expr) and isinstance(b[0].value, ast.Constant) and isinstance(b[0].value.value, str):
+        b = b[1:]
+    return b
+
+
 class Ctx:
-    def __init__(self, fn, prefix, tracked, subst, stack, round=None):
+    def __init__(self, fn, prefix, tracked, subst, stack, round=None, ret_loc=None, inst=None, bindable=()):
         self.fn, self.prefix, self.tracked, self.subst, self.stack = fn, prefix, tracked, subst, stack
-        self.round = round      # (first body line, serial number of this copy) of the innermost unrolled loop
+        self.round = round        # (function, first line, serial) of the innermost unrolled-loop / inlined copy
+        self.ret_loc = ret_loc    # caller's location that receives `return <environment value>`
+        self.inst = inst          # instance of a context-manager class being inlined
+        self.bindable = bindable  # names assigned exactly once, at the top level of the function body
+        self.rets = []            # structured values of the return statements
+        self.yield_body = None    # thunk: IR of the `with` body, for a @contextmanager generator
+        self.yields = 0
+        self.in_final = False     # inside a `finally` block / __exit__ / a helper called from there
+        self.pure_env = False     # inside a helper that syntactically only reads/writes os.environ and locals
+        self.top_stmts = ()
 
     def with_subst(self, extra, round):
         s = dict(self.subst)
         s.update(extra)
-        return Ctx(self.fn, self.prefix, self.tracked, s, self.stack, round)
+        c = Ctx(self.fn, self.prefix, self.tracked, s, self.stack, round, self.ret_loc, self.inst, self.bindable)
+        c.rets, c.yield_body = self.rets, self.yield_body
+        c.in_final, c.pure_env = self.in_final, self.pure_env
+        c.parent = self
+        return c
+
+    def final(self):
+        c = self.with_subst({}, self.round)
+        c.in_final = True
+        return c
+
+    def root(self):
+        c = self
+        while getattr(c, 'parent', None) is not None:
+            c = c.parent
+        return c
 
 
 class Translator:
@@ -71,6 +117,7 @@ class Translator:
         self.src = src if src is not None else open(path).read()
         self.tree = ast.parse(self.src)
         self.funcs = {n.name: n for n in self.tree.body if isinstance(n, ast.FunctionDef)}
+        self.classes = {n.name: n for n in self.tree.body if isinstance(n, ast.ClassDef)}
         self.os_names, self.environ_names = set(), set()
         for n in ast.walk(self.tree):
             if isinstance(n, ast.Import):
@@ -85,22 +132,38 @@ class Translator:
         self.meta = {}
         self.unsupported = []
         self.notes = []
-        self.inlined = set()
+        self.inlined = set()        # names of inlined functions, 'Class.method' for methods
         self.copies = {}
-        direct = {k for k, f in self.funcs.items() if self.writes_env(f)}
-        self.direct_writers = set(direct)
+        self.fresh = 0
+        # functions that write the environment, directly or through same-module callees / context managers
+        writers = {k for k, f in self.funcs.items() if self.writes_env(f)}
+        wclasses = {k for k, c in self.classes.items() if self.writes_env(c)}
+        changed = True
+        while changed:
+            changed = False
+            for k, f in list(self.funcs.items()) + list(self.classes.items()):
+                if k in writers or k in wclasses:
+                    continue
+                for n in ast.walk(f):
+                    if isinstance(n, ast.Call) and isinstance(n.func, ast.Name) and \
+                            (n.func.id in writers or n.func.id in wclasses):
+                        (writers if k in self.funcs else wclasses).add(k)
+                        changed = True
+                        break
+        self.writers, self.writer_classes = writers, wclasses
+        # small read-only helpers: mention os.environ, call nothing but os.environ methods,
+        # other such helpers, and exception constructors inside `raise`
+        self.readers = set()
         changed = True
         while changed:
             changed = False
             for k, f in self.funcs.items():
-                if k in direct:
+                if k in writers or k in self.readers or not self.mentions_environ(f) or self.is_cm_generator(f):
                     continue
-                for n in ast.walk(f):
-                    if isinstance(n, ast.Call) and isinstance(n.func, ast.Name) and n.func.id in direct:
-                        direct.add(k)
-                        changed = True
-                        break
-        self.inlinable = direct
+                if self.only_env_calls(f):
+                    self.readers.add(k)
+                    changed = True
+        self.inlinable = writers | self.readers
 
     # ------------------------------------------------------------ recognisers
     def is_environ(self, n):
@@ -127,12 +190,71 @@ class Translator:
     def mentions_environ(self, node):
         return any(self.is_environ(n) or self.is_os_call(n, ('putenv', 'unsetenv')) for n in ast.walk(node))
 
+    def is_cm_generator(self, fn):
+        for d in getattr(fn, 'decorator_list', []):
+            if (isinstance(d, ast.Name) and d.id == 'contextmanager') or \
+                    (isinstance(d, ast.Attribute) and d.attr == 'contextmanager'):
+                return True
+        return False
+
+    def only_env_calls(self, fn):
+        in_raise = set()
+        for n in ast.walk(fn):
+            if isinstance(n, ast.Raise):
+                for m in ast.walk(n):
+                    in_raise.add(id(m))
+        for n in ast.walk(fn):
+            if isinstance(n, ast.Call) and id(n) not in in_raise:
+                if isinstance(n.func, ast.Attribute) and self.is_environ(n.func.value):
+                    continue
+                if isinstance(n.func, ast.Name) and n.func.id in self.readers:
+                    continue
+                if isinstance(n.func, ast.Attribute) and n.func.attr in STRMETH:
+                    continue
+                return False
+            if isinstance(n, (ast.Yield, ast.YieldFrom, ast.Await)):
+                return False
+        return True
+
+    def syntactic_pure_env(self, fn, seen=()):
+        """body = os.environ reads/writes, local assignments, if / for, return, calls of other such helpers -
+        nothing that raises on purpose, nothing foreign that is called"""
+        if self.is_cm_generator(fn) or fn.name in seen:
+            return False
+        for n in ast.walk(fn):
+            if isinstance(n, (ast.Raise, ast.Try, ast.With, ast.While, ast.Import, ast.ImportFrom, ast.Assert,
+                              ast.BinOp, ast.AugAssign, ast.Yield, ast.YieldFrom, ast.Await)):
+                return False
+            if isinstance(n, ast.Attribute) and not self.is_environ(n) and not self.is_environ(n.value) \
+                    and not (isinstance(n.value, ast.Name) and n.value.id == 'self'):
+                return False
+            if isinstance(n, ast.Subscript) and not self.is_environ(n.value):
+                return False
+            if isinstance(n, ast.Call):
+                if isinstance(n.func, ast.Attribute) and self.is_environ(n.func.value):
+                    continue
+                if isinstance(n.func, ast.Name) and n.func.id in self.funcs and \
+                        self.syntactic_pure_env(self.funcs[n.func.id], seen + (fn.name,)):
+                    continue
+                return False
+        return True
+
+    def attr_key(self, n, ctx):
+        """'self.attr' for an attribute of the context-manager instance being inlined"""
+        if ctx.inst is not None and isinstance(n, ast.Attribute) and isinstance(n.value, ast.Name) \
+                and n.value.id == ctx.inst['self']:
+            return n.attr
+        return None
+
     def const(self, n, ctx):
         """constant-fold a string expression, None if it is not a compile-time string"""
         if isinstance(n, ast.Constant) and isinstance(n.value, str):
             return n.value
         if isinstance(n, ast.Name) and n.id in ctx.subst and ctx.subst[n.id][0] == 'const':
             return ctx.subst[n.id][1]
+        a = self.attr_key(n, ctx)
+        if a is not None and ctx.inst['consts'].get(a, OPAQUE)[0] == 'const':
+            return ctx.inst['consts'][a][1]
         if isinstance(n, ast.BinOp) and isinstance(n.op, ast.Add):
             a, b = self.const(n.left, ctx), self.const(n.right, ctx)
             if a is not None and b is not None:
@@ -149,7 +271,10 @@ class Translator:
         return None
 
     def loc(self, n, ctx):
-        """the tracked local a Name denotes, or None"""
+        """the tracked location (local, or attribute of the inlined instance) an expression denotes, or None"""
+        a = self.attr_key(n, ctx)
+        if a is not None:
+            return ctx.inst['prefix'] + a if a in ctx.inst['tracked'] else None
         if not isinstance(n, ast.Name):
             return None
         if n.id in ctx.subst:
@@ -157,6 +282,15 @@ class Translator:
             return v[1] if v[0] == 'loc' else None
         if n.id in ctx.tracked:
             return ctx.prefix + n.id
+        return None
+
+    def store_loc(self, t, ctx):
+        """location written by an assignment target (tracked local / instance attribute), or None"""
+        a = self.attr_key(t, ctx)
+        if a is not None:
+            return ctx.inst['prefix'] + a if a in ctx.inst['tracked'] else None
+        if isinstance(t, ast.Name) and t.id in ctx.tracked and t.id not in ctx.subst:
+            return ctx.prefix + t.id
         return None
 
     def env_value(self, v, ctx):
@@ -176,15 +310,39 @@ class Translator:
                 return ('popsave', c)
         return None
 
+    def is_env_read_shape(self, v):
+        """syntactically: os.environ[...] / os.environ.get(...) / .pop(...) / call of a read-only helper"""
+        if isinstance(v, ast.Subscript) and self.is_environ(v.value):
+            return True
+        if isinstance(v, ast.Call) and isinstance(v.func, ast.Attribute) and self.is_environ(v.func.value) \
+                and v.func.attr in ('get', 'pop'):
+            return True
+        return isinstance(v, ast.Call) and isinstance(v.func, ast.Name) and v.func.id in self.readers
+
     def tracked_names(self, fn):
         out = set()
         for n in ast.walk(fn):
             if isinstance(n, (ast.Assign, ast.AnnAssign)):
                 tg = n.targets if isinstance(n, ast.Assign) else [n.target]
-                if len(tg) == 1 and isinstance(tg[0], ast.Name) and n.value is not None \
-                        and self.env_value(n.value, Ctx('', '', set(), {}, ())):
+                if len(tg) == 1 and isinstance(tg[0], ast.Name) and n.value is not None and self.is_env_read_shape(n.value):
                     out.add(tg[0].id)
         return out
+
+    def bindable_names(self, fn):
+        """names assigned exactly once in the function, by a top-level statement of its body"""
+        count = {}
+        for n in ast.walk(fn):
+            if isinstance(n, ast.Name) and not isinstance(n.ctx, ast.Load):
+                count[n.id] = count.get(n.id, 0) + 1
+            if isinstance(n, (ast.Global, ast.Nonlocal)):
+                for nm in n.names:
+                    count[nm] = 99
+        top = set()
+        for s in fn.body:
+            if isinstance(s, ast.Assign) and len(s.targets) == 1 and isinstance(s.targets[0], ast.Name):
+                top.add(s.targets[0].id)
+        params = {a.arg for a in fn.args.args + fn.args.kwonlyargs + fn.args.posonlyargs}
+        return {k for k in top if count.get(k) == 1 and k not in params}
 
     # ------------------------------------------------------------ bookkeeping
     def newid(self, kind, node, ctx, **kw):
@@ -202,6 +360,8 @@ class Translator:
         m = dict(kind=kind, func=ctx.fn, line=node.lineno, end=end)
         if ctx.round is not None:
             m['round'] = list(ctx.round)
+        if ctx.pure_env:
+            m['restore'] = True
         m.update(kw)
         self.meta[self.nid] = m
         return self.nid
@@ -210,11 +370,15 @@ class Translator:
         self.unsupported.append({'func': ctx.fn, 'line': getattr(node, 'lineno', 0), 'msg': msg})
 
     def stored(self, node, ctx):
-        """tracked locals (re)bound by the expression parts of a statement"""
+        """tracked locations (re)bound by the expression parts of a statement"""
         out = []
         for n in ast.walk(node):
             if isinstance(n, ast.Name) and not isinstance(n.ctx, ast.Load) and n.id in ctx.tracked:
                 out.append(ctx.prefix + n.id)
+            if isinstance(n, ast.Attribute) and not isinstance(n.ctx, ast.Load):
+                x = self.store_loc(n, ctx)
+                if x:
+                    out.append(x)
             if isinstance(n, ast.alias):
                 nm = (n.asname or n.name).split('.')[0]
                 if nm in ctx.tracked:
@@ -224,6 +388,66 @@ class Translator:
     def kills(self, node, ctx, names=None):
         names = self.stored(node, ctx) if names is None else names
         return [['kill', x, self.newid('value', node, ctx)] for x in names]
+
+    def fresh_loc(self, ctx, hint):
+        self.fresh += 1
+        return '%s%s#%d' % (ctx.prefix, hint, self.fresh)
+
+    # ------------------------------------------------------------ structured values
+    def value_of(self, e, ctx, pre):
+        """translator-level value of an expression: ('const', s) | ('loc', x) | ('none',) | ('tuple', [...]) |
+        OPAQUE; environment reads inside it are saved into fresh locations (statements appended to pre)"""
+        c = self.const(e, ctx)
+        if c is not None:
+            return ('const', c)
+        if isinstance(e, ast.Constant):
+            return ('none',) if e.value is None else OPAQUE
+        if isinstance(e, ast.Name):
+            if e.id in ctx.subst:
+                return ctx.subst[e.id]
+            y = self.loc(e, ctx)
+            return ('loc', y) if y else OPAQUE
+        if self.attr_key(e, ctx) is not None:
+            y = self.loc(e, ctx)
+            return ('loc', y) if y else OPAQUE
+        ev = self.env_value(e, ctx)
+        if ev and ev[0] in ('load', 'save'):
+            x = self.fresh_loc(ctx, 'saved')
+            pre.append([ev[0], x, ev[1]])
+            return ('loc', x)
+        if isinstance(e, (ast.Tuple, ast.List)):
+            vs = [self.value_of(x, ctx, pre) for x in e.elts]
+            return ('tuple', vs)
+        if isinstance(e, (ast.ListComp, ast.GeneratorExp)) and len(e.generators) == 1 and not e.generators[0].ifs \
+                and not e.generators[0].is_async:
+            g = e.generators[0]
+            it = self.value_of(g.iter, ctx, []) if isinstance(g.iter, (ast.Name, ast.Tuple, ast.List)) else OPAQUE
+            if it[0] == 'tuple':
+                out = []
+                for v in it[1]:
+                    b = self.bind_target(g.target, v)
+                    if b is None:
+                        return OPAQUE
+                    out.append(self.value_of(e.elt, ctx.with_subst(b, ctx.round), pre))
+                return ('tuple', out)
+        return OPAQUE
+
+    @staticmethod
+    def bind_target(tg, v):
+        """bindings of loop/comprehension target names for one element value, or None"""
+        if isinstance(tg, ast.Name):
+            return {tg.id: v}
+        if isinstance(tg, (ast.Tuple, ast.List)) and all(isinstance(x, ast.Name) for x in tg.elts):
+            if v[0] == 'tuple' and len(v[1]) == len(tg.elts):
+                return {x.id: w for x, w in zip(tg.elts, v[1])}
+        return None
+
+    @staticmethod
+    def known(v):
+        """is the value worth binding (contains a constant or a saved location)"""
+        if v[0] in ('const', 'loc', 'none'):
+            return True
+        return v[0] == 'tuple' and len(v[1]) > 0 and all(Translator.known(w) for w in v[1])
 
     # ------------------------------------------------------------ expressions
     def scan(self, n, ctx, acc, cond=False):
@@ -235,6 +459,8 @@ class Translator:
         t = type(n)
         if t in (ast.Name, ast.Constant):
             return
+        if self.attr_key(n, ctx) is not None and isinstance(n.ctx, ast.Load):
+            return                      # attribute of the inlined instance: a plain slot
         if t is ast.Subscript and self.is_environ(n.value):
             if not isinstance(n.ctx, ast.Load):
                 self.unsup(n, ctx, 'environment write in an unsupported position')
@@ -271,8 +497,9 @@ class Translator:
             for c in [n.left] + list(n.comparators):
                 self.scan(c, ctx, acc, cond)
             return
-        if t is ast.Call and isinstance(n.func, ast.Name) and n.func.id in self.inlinable:
-            self.unsup(n, ctx, 'call of the environment-writing function %s inside an expression' % n.func.id)
+        if t is ast.Call and isinstance(n.func, ast.Name) and \
+                (n.func.id in self.writers or n.func.id in self.writer_classes):
+            self.unsup(n, ctx, 'call of the environment-writing %s inside an expression' % n.func.id)
             return
         if t in (ast.Tuple, ast.List, ast.Set):
             for e in n.elts:
@@ -298,65 +525,153 @@ class Translator:
             return
         acc['risky'] = True
         inner_cond = cond or t in (ast.BoolOp, ast.IfExp, ast.ListComp, ast.SetComp, ast.DictComp, ast.GeneratorExp)
-        first = True
         for c in ast.iter_child_nodes(n):
-            cc = inner_cond and not (first and t in (ast.BoolOp, ast.IfExp) and False)
-            first = False
             if isinstance(c, ast.keyword):
-                self.scan(c.value, ctx, acc, cc)
+                self.scan(c.value, ctx, acc, inner_cond)
             elif isinstance(c, ast.comprehension):
                 self.scan(c.iter, ctx, acc, True)
                 for i in c.ifs:
                     self.scan(i, ctx, acc, True)
             elif isinstance(c, ast.expr):
-                self.scan(c, ctx, acc, cc)
+                self.scan(c, ctx, acc, inner_cond)
 
-    def simple(self, node, ctx, exprs, force=False, kind='fault'):
-        """fault point (if anything may raise) and unconditional environment lookups of a statement"""
+    def simple(self, node, ctx, exprs, force=False, kind='fault', envwrite=False):
+        """fault point (if anything may raise) and unconditional environment lookups of a statement;
+        envwrite: the statement is itself an environment write (in a finally block: a restore statement)"""
         acc = {'risky': bool(force), 'needs': []}
         for e in exprs:
             self.scan(e, ctx, acc)
         out = []
         if acc['risky']:
-            out.append(['fault', self.newid(kind, node, ctx)])
+            kw = {'restore': True} if (envwrite and ctx.in_final) else {}
+            out.append(['fault', self.newid(kind, node, ctx, **kw)])
         out += [['need', c] for c in acc['needs']]
         return out
 
-    # ------------------------------------------------------------ statements
-    def function(self, name, stack=()):
-        fn = self.funcs[name]
-        prefix = '' if not stack else name + '.'
-        ctx = Ctx(name, prefix, self.tracked_names(fn), {}, tuple(stack) + (name,))
+    # ------------------------------------------------------------ functions, inlining
+    def check_function(self, fn, ctx, allow_yield=False):
         for n in ast.walk(fn):
             if n is not fn and isinstance(n, (ast.FunctionDef, ast.AsyncFunctionDef, ast.ClassDef)):
                 if self.mentions_environ(n) or any(isinstance(m, ast.Name) and m.id in ctx.tracked for m in ast.walk(n)):
                     self.unsup(n, ctx, 'nested definition that touches os.environ or a saved value')
             if isinstance(n, (ast.Global, ast.Nonlocal)) and set(n.names) & ctx.tracked:
                 self.unsup(n, ctx, 'global/nonlocal declaration of a local that saves an environment value')
-        if fn.decorator_list:
-            self.notes.append('%s: decorators are not modelled' % name)
+        decos = [d for d in fn.decorator_list
+                 if not (allow_yield and self.is_cm_generator(fn))]
+        if decos:
+            self.notes.append('%s: decorators are not modelled' % fn.name)
+
+    def function(self, name):
+        """IR of a module-level function analysed as an entry point"""
+        fn = self.funcs[name]
+        ctx = Ctx(name, '', self.tracked_names(fn), {}, (name,), bindable=self.bindable_names(fn))
+        ctx.top_stmts = fn.body
+        self.check_function(fn, ctx)
         return self.block(fn.body, ctx)
+
+    def bind_params(self, fn, call, ctx, pre, skip_self=False):
+        """parameter name -> value of the corresponding argument of the call"""
+        params = [a.arg for a in fn.args.posonlyargs + fn.args.args]
+        if skip_self:
+            params = params[1:]
+        defaults = dict(zip(reversed(params), reversed(fn.args.defaults)))
+        for a, d in zip(fn.args.kwonlyargs, fn.args.kw_defaults):
+            if d is not None:
+                defaults[a.arg] = d
+        names = params + [a.arg for a in fn.args.kwonlyargs]
+        out = {p: OPAQUE for p in names}
+        if call is None or any(isinstance(a, ast.Starred) for a in call.args) or any(k.arg is None for k in call.keywords):
+            return out
+        given = {}
+        for p, a in zip(params, call.args):
+            given[p] = a
+        for k in call.keywords:
+            given[k.arg] = k.value
+        stored = {n.id for n in ast.walk(fn) if isinstance(n, ast.Name) and not isinstance(n.ctx, ast.Load)}
+        for p in names:
+            if p in stored:
+                continue                      # reassigned in the callee: not a fixed value
+            if p in given:
+                out[p] = self.value_of(given[p], ctx, pre)
+            elif p in defaults:
+                out[p] = self.value_of(defaults[p], Ctx(fn.name, '', set(), {}, ()), [])
+        return out
+
+    def serial(self, fn):
+        self.copies[id(fn)] = self.copies.get(id(fn), 0) + 1
+        return self.copies[id(fn)]
+
+    def first_line(self, fn):
+        b = body_of(fn)
+        return (b[0] if b else fn).lineno
+
+    def inline(self, fn, call, node, ctx, ret_loc=None, qual=None, inst=None, skip_self=False, yield_body=None):
+        """(statements evaluating the arguments, IR of the callee body as a scope, callee Ctx)"""
+        pre = []
+        binds = self.bind_params(fn, call, ctx, pre, skip_self=skip_self)
+        qual = qual or fn.name
+        self.inlined.add(qual)
+        c = Ctx(fn.name, qual + '.', self.tracked_names(fn), {k: v for k, v in binds.items() if v is not OPAQUE},
+                ctx.stack + (qual,), round=(fn.name, self.first_line(fn), self.serial(fn)), ret_loc=ret_loc, inst=inst,
+                bindable=self.bindable_names(fn))
+        c.yield_body = yield_body
+        c.top_stmts = fn.body
+        c.in_final = ctx.in_final or qual.endswith('.__exit__')
+        c.pure_env = self.syntactic_pure_env(fn)
+        self.check_function(fn, c, allow_yield=yield_body is not None)
+        if yield_body is None and any(isinstance(n, (ast.Yield, ast.YieldFrom)) for n in ast.walk(fn)):
+            self.unsup(node, ctx, 'call of the generator %s' % qual)
+        body = self.block(fn.body, c)
+        if yield_body is not None and c.yields != 1:
+            self.unsup(node, ctx, 'context-manager generator %s with %d yield statements' % (qual, c.yields))
+        return pre, ['scope', body], c
+
+    def inlinable_call(self, value, ctx):
+        if isinstance(value, ast.Call) and isinstance(value.func, ast.Name) and value.func.id in self.inlinable \
+                and value.func.id in self.funcs:
+            return self.funcs[value.func.id]
+        return None
+
+    def call_stmt(self, value, node, ctx, ret_loc=None, bind_name=None):
+        """statement whose value is a call of a same-module function touching os.environ, or None"""
+        fn = self.inlinable_call(value, ctx)
+        if fn is None:
+            return None
+        if fn.name in ctx.stack:
+            if fn.name in self.writers:
+                self.unsup(node, ctx, 'recursive call of the environment-writing function %s' % fn.name)
+            return None
+        if self.is_cm_generator(fn):
+            return None
+        if fn.name in self.readers and ret_loc is None and bind_name is None and not isinstance(node, ast.Expr):
+            return None                       # value goes somewhere untracked: an ordinary (read-only) call
+        acc = {'risky': False, 'needs': []}
+        for a in list(value.args) + [k.value for k in value.keywords]:
+            self.scan(a, ctx, acc)
+        n_unsup = len(self.unsupported)
+        pre, body, c = self.inline(fn, value, node, ctx, ret_loc=ret_loc)
+        pure = (not has_fault(body) and len(self.unsupported) == n_unsup) or c.pure_env
+        out = []
+        if acc['risky'] or not pure:
+            out.append(['fault', self.newid('fault', node, ctx, call=fn.name)])
+        out += [['need', v] for v in acc['needs']] + pre + [body]
+        if bind_name is not None:
+            v = c.rets[0] if len(c.rets) == 1 and self.single_final_return(fn) else OPAQUE
+            if self.known(v):
+                ctx.root().subst[bind_name] = v
+                ctx.subst[bind_name] = v
+        return out
+
+    @staticmethod
+    def single_final_return(fn):
+        rets = [n for n in ast.walk(fn) if isinstance(n, ast.Return)]
+        return len(rets) == 1 and fn.body and fn.body[-1] is rets[0]
 
     def block(self, stmts, ctx):
         out = []
         for s in stmts:
             out += self.stmt(s, ctx)
         return seq(out)
-
-    def try_inline(self, value, node, ctx):
-        if not (isinstance(value, ast.Call) and isinstance(value.func, ast.Name) and value.func.id in self.inlinable):
-            return None
-        f = value.func.id
-        if f in ctx.stack:
-            self.unsup(node, ctx, 'recursive call of the environment-writing function %s' % f)
-            return None
-        acc = {'risky': True, 'needs': []}
-        for a in list(value.args) + [k.value for k in value.keywords]:
-            self.scan(a, ctx, acc)
-        out = [['fault', self.newid('fault', node, ctx, call=f)]] + [['need', c] for c in acc['needs']]
-        self.inlined.add(f)
-        out.append(['scope', self.function(f, ctx.stack)])
-        return out
 
     def stmt(self, n, ctx):
         t = type(n)
@@ -366,6 +681,7 @@ class Translator:
             return [['fault', self.newid('fault', n, ctx)]]
         return m(n, ctx)
 
+    # ------------------------------------------------------------ statements
     def s_Pass(self, n, ctx):
         return []
 
@@ -384,6 +700,11 @@ class Translator:
         v = n.value
         if isinstance(v, ast.Constant):
             return []
+        if isinstance(v, ast.Yield) and ctx.yield_body is not None:
+            ctx.root().yields += 1
+            if v.value is not None:
+                return self.simple(n, ctx, [v.value]) + [ctx.yield_body()]
+            return [ctx.yield_body()]
         if isinstance(v, ast.Call) and isinstance(v.func, ast.Attribute) and self.is_environ(v.func.value) \
                 and v.func.attr == 'pop' and not v.keywords and 1 <= len(v.args) <= 2:
             c = self.const(v.args[0], ctx)
@@ -392,8 +713,8 @@ class Translator:
                 return []
             if len(v.args) == 1:
                 return [['del', c]]
-            return self.simple(n, ctx, [v.args[1]]) + [['pop', c]]
-        inl = self.try_inline(v, n, ctx)
+            return self.simple(n, ctx, [v.args[1]], envwrite=True) + [['pop', c]]
+        inl = self.call_stmt(v, n, ctx)
         if inl is not None:
             return inl
         return self.simple(n, ctx, [v]) + self.kills(n, ctx)
@@ -403,17 +724,31 @@ class Translator:
         value = n.value if value is None else value
         if len(targets) == 1:
             t = targets[0]
-            if isinstance(t, ast.Name):
-                x = ctx.prefix + t.id if t.id in ctx.tracked else None
+            x = self.store_loc(t, ctx)
+            if x:
                 ev = self.env_value(value, ctx)
-                if x and ev:
+                if ev:
                     if ev[0] == 'load':
                         return [['load', x, ev[1]]]
                     if ev[0] == 'save':
                         return [['save', x, ev[1]]]
                     return [['save', x, ev[1]], ['pop', ev[1]]]
-                if x and isinstance(value, ast.Constant) and value.value is None:
+                if isinstance(value, ast.Constant) and value.value is None:
                     return [['setNone', x]]
+                bind = t.id if (isinstance(t, ast.Name) and t.id in ctx.bindable and ctx.root() is ctx
+                                and n in ctx.top_stmts) else None
+                inl = self.call_stmt(value, n, ctx, ret_loc=x, bind_name=bind)
+                if inl is not None:
+                    return inl
+            a = self.attr_key(t, ctx)
+            if a is not None and not x:
+                # untracked slot of the inlined instance: a constant there is remembered
+                pre = []
+                v = self.value_of(value, ctx, pre)
+                if ctx.fn == '__init__' and a in ctx.inst['once'] and v[0] == 'const':
+                    ctx.inst['consts'][a] = v
+                    return []
+                return self.simple(n, ctx, [value])
             if isinstance(t, ast.Subscript) and self.is_environ(t.value):
                 c = self.const(t.slice, ctx)
                 if c is None:
@@ -422,19 +757,35 @@ class Translator:
                 y = self.loc(value, ctx)
                 if y:
                     return [['setFrom', c, y]]
-                return self.simple(n, ctx, [value]) + [['setExpr', c, self.newid('value', n, ctx)]]
+                return self.simple(n, ctx, [value], envwrite=True) + [['setExpr', c, self.newid('value', n, ctx)]]
+            if isinstance(t, ast.Name) and not x and t.id in ctx.bindable and ctx.root() is ctx \
+                    and n in ctx.top_stmts:
+                # assigned once, at the top level of the function: remember a structured value
+                inl = self.call_stmt(value, n, ctx, bind_name=t.id)
+                if inl is not None:
+                    return inl
+                if isinstance(value, (ast.Tuple, ast.List, ast.ListComp)):
+                    acc = {'risky': False, 'needs': []}
+                    self.scan(value, ctx, acc)
+                    pre = []
+                    v = self.value_of(value, ctx, pre)
+                    if self.known(v) and v[0] == 'tuple':
+                        ctx.subst[t.id] = v
+                        return pre
         for t in targets:
             if self.mentions_environ(t):
                 self.unsup(n, ctx, 'environment write in an unsupported assignment form')
-        inl = self.try_inline(value, n, ctx)
-        unpack = any(not isinstance(t, ast.Name) for t in targets)
+        inl = self.call_stmt(value, n, ctx) if self.inlinable_call(value, ctx) is not None \
+            and self.inlinable_call(value, ctx).name in self.writers else None
+        unpack = any(not isinstance(t, ast.Name) and self.attr_key(t, ctx) is None for t in targets)
         if inl is not None:
             out = inl
             if unpack:
                 out = out + [['fault', self.newid('fault', n, ctx)]]
         else:
-            out = self.simple(n, ctx, [value] + [t for t in targets if not isinstance(t, (ast.Name, ast.Tuple, ast.List))],
-                              force=unpack)
+            out = self.simple(n, ctx, [value] + [t for t in targets
+                                                 if not isinstance(t, (ast.Name, ast.Tuple, ast.List))
+                                                 and self.attr_key(t, ctx) is None], force=unpack)
         kl = []
         for t in targets:
             kl += self.stored(t, ctx)
@@ -452,7 +803,7 @@ class Translator:
             if c is None:
                 self.unsup(n, ctx, 'augmented assignment to a computed environment variable name')
                 return [['fault', self.newid('fault', n, ctx)]]
-            return [['need', c]] + self.simple(n, ctx, [n.value], force=True) + \
+            return [['need', c]] + self.simple(n, ctx, [n.value], force=True, envwrite=True) + \
                 [['setExpr', c, self.newid('value', n, ctx)]]
         if self.mentions_environ(t):
             self.unsup(n, ctx, 'environment write in an unsupported assignment form')
@@ -477,11 +828,47 @@ class Translator:
         return out
 
     def s_Return(self, n, ctx):
-        if n.value is not None:
-            inl = self.try_inline(n.value, n, ctx)
+        v = n.value
+        root = ctx.root()
+        if v is None or (isinstance(v, ast.Constant) and v.value is None):
+            root.rets.append(('none',))
+            return ([['setNone', ctx.ret_loc]] if ctx.ret_loc else []) + [['ret']]
+        if ctx.ret_loc:
+            pre = []
+            val = self.value_of(v, ctx, pre) if isinstance(v, (ast.Tuple, ast.List, ast.ListComp, ast.GeneratorExp)) else OPAQUE
+            if self.known(val) and val[0] == 'tuple':
+                acc = {'risky': False, 'needs': []}
+                self.scan(v, ctx, acc)
+                root.rets.append(val)
+                return pre + [['ret']]
+            ev = self.env_value(v, ctx)
+            if ev and ev[0] in ('load', 'save'):
+                root.rets.append(OPAQUE)
+                return [[ev[0], ctx.ret_loc, ev[1]], ['ret']]
+            inl = self.call_stmt(v, n, ctx, ret_loc=ctx.ret_loc)
             if inl is not None:
+                root.rets.append(OPAQUE)
                 return inl + [['ret']]
-        return self.simple(n, ctx, [n.value]) + [['ret']]
+            root.rets.append(OPAQUE)
+            return self.simple(n, ctx, [v]) + [['kill', ctx.ret_loc, self.newid('value', n, ctx)], ['ret']]
+        fnw = self.inlinable_call(v, ctx)
+        if fnw is not None and fnw.name in self.writers:
+            inl = self.call_stmt(v, n, ctx)
+            if inl is not None:
+                root.rets.append(OPAQUE)
+                return inl + [['ret']]
+        if ctx.inst is not None and isinstance(v, ast.Name) and v.id == ctx.inst['self']:
+            root.rets.append(OPAQUE)
+            return [['ret']]
+        pre = []
+        val = self.value_of(v, ctx, pre)
+        if self.known(val) and val[0] == 'tuple':
+            acc = {'risky': False, 'needs': []}
+            self.scan(v, ctx, acc)           # records unsupported uses; the reads themselves are in `pre`
+            root.rets.append(val)
+            return pre + [['ret']]
+        root.rets.append(val if self.known(val) else OPAQUE)
+        return self.simple(n, ctx, [v]) + [['ret']]
 
     def s_Raise(self, n, ctx):
         return self.simple(n, ctx, [n.exc, n.cause]) + [['raise']]
@@ -507,6 +894,14 @@ class Translator:
         test, neg = n.test, False
         while isinstance(test, ast.UnaryOp) and isinstance(test.op, ast.Not):
             test, neg = test.operand, not neg
+        # `if c in os.environ: del os.environ[c]` is exactly os.environ.pop(c, None)
+        if not neg and not n.orelse and len(n.body) == 1 and isinstance(n.body[0], ast.Delete) \
+                and len(n.body[0].targets) == 1 and isinstance(test, ast.Compare) and len(test.ops) == 1 \
+                and isinstance(test.ops[0], ast.In) and self.is_environ(test.comparators[0]):
+            d = n.body[0].targets[0]
+            c = self.const(test.left, ctx)
+            if c is not None and isinstance(d, ast.Subscript) and self.is_environ(d.value) and self.const(d.slice, ctx) == c:
+                return [['pop', c]]
         then, els = self.block(n.body, ctx), self.block(n.orelse, ctx)
         if isinstance(test, ast.Compare) and len(test.ops) == 1:
             op, a, b = test.ops[0], test.left, test.comparators[0]
@@ -520,19 +915,22 @@ class Translator:
                         return [['ifNone', y, els, then] if flip else ['ifNone', y, then, els]]
                     if self.const(other, ctx) is not None:       # a string is never None
                         return [then if flip else els]
+                    if isinstance(other, ast.Name) and ctx.subst.get(other.id) == ('none',):
+                        return [els if flip else then]
             if isinstance(op, (ast.In, ast.NotIn)) and self.is_environ(b):
                 c = self.const(a, ctx)
                 if c is not None:
                     flip = neg != isinstance(op, ast.NotIn)
                     return [['ifSet', c, els, then] if flip else ['ifSet', c, then, els]]
-        pre = self.simple(n, ctx, [n.test], force=True)
+        # the truth value of a saved location (a string or None) cannot raise
+        # ... nor can an identity test (`x is None`, `a is not b`) of things that cannot raise
+        identity = isinstance(test, ast.Compare) and all(isinstance(o, (ast.Is, ast.IsNot)) for o in test.ops)
+        pre = [] if self.loc(test, ctx) else self.simple(n, ctx, [n.test], force=not identity)
         cid = self.newid('choice', n, ctx, anchor=n.lineno, then_line=n.body[0].lineno)
         return pre + [['choice', cid, then, els]]
 
     def unroll_values(self, n, ctx):
-        """for <names> in (<literal>, ...): the bindings of each round, or None"""
-        if not isinstance(n.iter, (ast.Tuple, ast.List)) or n.orelse and False:
-            return None
+        """for <names> in (<literal>, ...) / in a name bound to such a tuple: the bindings of each round, or None"""
         tg = n.target
         names = [tg.id] if isinstance(tg, ast.Name) else \
             [e.id for e in tg.elts] if isinstance(tg, (ast.Tuple, ast.List)) and all(isinstance(e, ast.Name) for e in tg.elts) \
@@ -545,33 +943,27 @@ class Translator:
                     return None
                 if isinstance(m, (ast.Break, ast.Continue)):
                     return None
-
-        def classify(e):
-            c = self.const(e, ctx)
-            if c is not None:
-                return ('const', c)
-            if isinstance(e, ast.Name):
-                y = self.loc(e, ctx)
-                if y:
-                    return ('loc', y)
-                return ctx.subst.get(e.id, ('opaque',)) if e.id in ctx.subst else ('opaque',)
-            if isinstance(e, ast.Constant):
-                return ('opaque',)
+        if isinstance(n.iter, (ast.Tuple, ast.List)):
+            for e in n.iter.elts:
+                acc = {'risky': False, 'needs': []}
+                self_unsup = len(self.unsupported)
+                self.scan(e, ctx, acc)
+                del self.unsupported[self_unsup:]
+                if acc['risky'] or acc['needs']:
+                    return None
+            it = self.value_of(n.iter, ctx, [])
+        elif isinstance(n.iter, ast.Name) and n.iter.id in ctx.subst:
+            it = ctx.subst[n.iter.id]
+        else:
+            return None
+        if it[0] != 'tuple':
             return None
         rounds = []
-        for e in n.iter.elts:
-            if isinstance(tg, ast.Name):
-                v = classify(e)
-                if v is None:
-                    return None
-                rounds.append({names[0]: v})
-            else:
-                if not isinstance(e, (ast.Tuple, ast.List)) or len(e.elts) != len(names):
-                    return None
-                vs = [classify(x) for x in e.elts]
-                if any(v is None for v in vs):
-                    return None
-                rounds.append(dict(zip(names, vs)))
+        for v in it[1]:
+            b = self.bind_target(tg, v)
+            if b is None:
+                return None
+            rounds.append(b)
         return rounds
 
     def s_For(self, n, ctx):
@@ -579,8 +971,7 @@ class Translator:
         if rounds is not None:
             out = []
             for r in rounds:
-                self.copies[id(n)] = self.copies.get(id(n), 0) + 1
-                out.append(self.block(n.body, ctx.with_subst(r, (n.body[0].lineno, self.copies[id(n)]))))
+                out.append(self.block(n.body, ctx.with_subst(r, (ctx.fn, n.body[0].lineno, self.serial(n)))))
             return out + [self.block(n.orelse, ctx)]
         pre = self.simple(n, ctx, [n.iter], force=True)
         lid = self.newid('loop', n, ctx, body_line=n.body[0].lineno)
@@ -610,19 +1001,136 @@ class Translator:
             self.notes.append('%s:%d: try/else over-approximated as try followed by else' % (ctx.fn, n.lineno))
             body = seq([body, self.block(n.orelse, ctx)])
         if n.finalbody:
-            body = ['tryFinally', body, self.block(n.finalbody, ctx)]
+            body = ['tryFinally', body, self.block(n.finalbody, ctx.final())]
         return [body]
 
-    def s_With(self, n, ctx):
+    # ------------------------------------------------------------ with
+    def class_methods(self, cls):
+        return {m.name: m for m in cls.body if isinstance(m, ast.FunctionDef)}
+
+    def with_class(self, cls, call, n, ctx, as_var, body_thunk):
+        """`with C(args): body` for a same-module class C with __enter__ / __exit__"""
+        ms = self.class_methods(cls)
+        k = self.serial(cls)
+        prefix = '%s#%d.' % (cls.name, k)
+        # attribute slots: tracked when they receive an environment value / None-or-value / a helper's result
+        assigned = {}
+        for m in ms.values():
+            selfname = m.args.args[0].arg if m.args.args else None
+            for x in ast.walk(m):
+                if isinstance(x, (ast.Assign, ast.AnnAssign)):
+                    tg = x.targets if isinstance(x, ast.Assign) else [x.target]
+                    for t in tg:
+                        for y in ast.walk(t):
+                            if isinstance(y, ast.Attribute) and isinstance(y.value, ast.Name) and y.value.id == selfname \
+                                    and not isinstance(y.ctx, ast.Load):
+                                assigned.setdefault(y.attr, []).append((m.name, x))
+                elif isinstance(x, (ast.AugAssign, ast.Delete, ast.For, ast.With)):
+                    for y in ast.walk(x):
+                        if isinstance(y, ast.Attribute) and not isinstance(y.ctx, ast.Load) and \
+                                isinstance(y.value, ast.Name) and y.value.id == selfname:
+                            assigned.setdefault(y.attr, []).append((m.name, None))
+        tracked = {a for a, ws in assigned.items()
+                   if any(w is not None and w.value is not None and len(getattr(w, 'targets', [1])) == 1
+                          and self.is_env_read_shape(w.value) for _, w in ws)}
+        once = {a for a, ws in assigned.items() if len(ws) == 1 and ws[0][0] == '__init__' and a not in tracked}
+        inst = {'self': None, 'prefix': prefix, 'tracked': tracked, 'consts': {}, 'once': once, 'cls': cls.name}
+        # the instance must not escape: `self` is only used as `self.attr`, or returned by __enter__
+        for m in ms.values():
+            selfname = m.args.args[0].arg if m.args.args else None
+            attr_bases = {id(y.value) for y in ast.walk(m) if isinstance(y, ast.Attribute)}
+            for x in ast.walk(m):
+                if isinstance(x, ast.Name) and x.id == selfname and id(x) not in attr_bases:
+                    par_ok = any(isinstance(r, ast.Return) and r.value is x for r in ast.walk(m))
+                    if not par_ok:
+                        self.unsup(x, ctx, 'context-manager instance of %s escapes in %s' % (cls.name, m.name))
+        if as_var is not None:
+            used = any(isinstance(x, ast.Name) and x.id == as_var for s in n.body for x in ast.walk(s))
+            if used:
+                self.unsup(n, ctx, 'the `as` variable of the inlined context manager %s is used in the block' % cls.name)
         out = []
-        for it in n.items:
-            out += self.simple(n, ctx, [it.context_expr], force=True)
-            if it.optional_vars is not None:
-                if self.mentions_environ(it.optional_vars):
-                    self.unsup(n, ctx, 'environment write in a with target')
-                out += self.kills(it.optional_vars, ctx)
+        acc = {'risky': False, 'needs': []}
+        for a in list(call.args) + [kw.value for kw in call.keywords]:
+            self.scan(a, ctx, acc)
+        if acc['risky']:
+            out.append(['fault', self.newid('fault', n, ctx)])
+        out += [['need', v] for v in acc['needs']]
+
+        def method(name, callnode):
+            m = ms[name]
+            i2 = dict(inst, self=m.args.args[0].arg if m.args.args else None)
+            i2['consts'], i2['tracked'], i2['once'] = inst['consts'], inst['tracked'], inst['once']
+            pre, body, _ = self.inline(m, callnode, n, ctx, qual='%s.%s' % (cls.name, name), inst=i2, skip_self=True)
+            return pre + [body]
+        if '__init__' in ms:
+            out += method('__init__', call)
+        elif call.args or call.keywords:
+            out.append(['fault', self.newid('fault', n, ctx)])
+        out += method('__enter__', None)
+        exit_ir = seq(method('__exit__', None))
+        swallow = any(isinstance(r, ast.Return) and r.value is not None and
+                      not (isinstance(r.value, ast.Constant) and r.value.value in (False, None))
+                      for r in ast.walk(ms['__exit__']))
+        prot = ['tryFinally', body_thunk(), exit_ir]
+        if swallow:
+            prot = ['tryExcept', self.newid('with', n, ctx), prot, ['skip']]
+        out.append(prot)
+        return out
+
+    def with_generator(self, fn, call, n, ctx, body_thunk):
+        """`with g(args): body` for a same-module @contextmanager generator: its body with the
+        `yield` statement replaced by the block"""
+        state = {}
+
+        def thunk():
+            b = body_thunk()
+            state['ret'] = any(x[0] == 'ret' for x in walk_ir(b))
+            return b
+        acc = {'risky': False, 'needs': []}
+        for a in list(call.args) + [kw.value for kw in call.keywords]:
+            self.scan(a, ctx, acc)
+        out = []
+        if acc['risky']:
+            out.append(['fault', self.newid('fault', n, ctx)])
+        out += [['need', v] for v in acc['needs']]
+        for x in ast.walk(fn):
+            if isinstance(x, (ast.Yield, ast.YieldFrom)):
+                par_ok = any(isinstance(s, ast.Expr) and s.value is x for s in ast.walk(fn))
+                if not par_ok or isinstance(x, ast.YieldFrom):
+                    self.unsup(x, ctx, 'context-manager generator %s uses the value of yield / yield from' % fn.name)
+        pre, body, _ = self.inline(fn, call, n, ctx, yield_body=thunk)
+        if state.get('ret'):
+            self.unsup(n, ctx, 'return inside a block guarded by the generator context manager %s' % fn.name)
+        return out + pre + [body]
+
+    def s_With(self, n, ctx, k=0):
+        if k >= len(n.items):
+            return [self.block(n.body, ctx)]
+        it = n.items[k]
+        rest = lambda: seq(self.s_With(n, ctx, k + 1))
+        e = it.context_expr
+        as_var = it.optional_vars.id if isinstance(it.optional_vars, ast.Name) else None
+        if isinstance(e, ast.Call) and isinstance(e.func, ast.Name):
+            cls = self.classes.get(e.func.id)
+            fn = self.funcs.get(e.func.id)
+            if cls is not None and {'__enter__', '__exit__'} <= set(self.class_methods(cls)) and \
+                    (self.mentions_environ(cls) or cls.name in self.writer_classes):
+                if it.optional_vars is not None and as_var is None:
+                    self.unsup(n, ctx, 'unpacking the value of an inlined context manager')
+                out = self.with_class(cls, e, n, ctx, as_var, rest)
+                return out[:-1] + (self.kills(it.optional_vars, ctx) if it.optional_vars is not None else []) + out[-1:]
+            if fn is not None and self.is_cm_generator(fn) and (self.mentions_environ(fn) or fn.name in self.writers):
+                if fn.name in ctx.stack:
+                    self.unsup(n, ctx, 'recursive use of the context manager %s' % fn.name)
+                else:
+                    return self.with_generator(fn, e, n, ctx, rest)
+        out = self.simple(n, ctx, [e], force=True)
+        if it.optional_vars is not None:
+            if self.mentions_environ(it.optional_vars):
+                self.unsup(n, ctx, 'environment write in a with target')
+            out += self.kills(it.optional_vars, ctx)
         wid = self.newid('with', n, ctx)
-        out.append(['tryExcept', wid, self.block(n.body, ctx), ['skip']])
+        out.append(['tryExcept', wid, rest(), ['skip']])
         out.append(['fault', self.newid('fault', n, ctx, exit=True)])
         return out
 
@@ -662,7 +1170,7 @@ def called_names(fn):
 
 
 def translate(path, func):
-    """IR of one module-level function (environment-writing callees of the same module inlined)"""
+    """IR of one module-level function (callees / context managers of the same module that touch os.environ inlined)"""
     tr = Translator(path)
     if func not in tr.funcs:
         tr.unsup(tr.tree, Ctx(func, '', set(), {}, ()), 'function %s not found in %s' % (func, path))
